@@ -528,6 +528,15 @@ Proof.
 Qed.
 End Loop.
 
+(* the plain invariant through a whole propagation, with no capacity hypothesis and no exclusion of the delivery budget
+   (Quiet.flush_RI needed both, because it could not rule out a materialisation that fails half-way) *)
+Theorem flush_RO beh q w : RO w -> ~ ubf (res_fail (flush beh q w)) -> RO (res_world (flush beh q w)).
+Proof. intros H Hn. apply RO_OW_null. apply flush_OW; [now apply RO_OW_null|exact Hn]. Qed.
+
+(* under the plain invariant the materialisation cannot fail, and it ends quiet *)
+Theorem spawn_all_cannot_fail w : RO w -> exists w', spawn_all w = ROk tt w' /\ RO w' /\ Quiet w'.
+Proof. intros H. destruct (spawn_all_OW KEY_NULL w (proj1 (RO_OW_null w) H)) as (w' & E & H' & Q). exists w'. split; [exact E|]. split; [now apply RO_OW_null|exact Q]. Qed.
+
 (* not vacuous, and "from the moment its Spawn event has been delivered", not before: on a map with one live
    entity and one recycled slot, the two ids NextKeyIter promises are neither live nor dead; after the two
    insertions both are live *)
